@@ -29,7 +29,9 @@ ASSUMPTIONS = [
     "only the recorded command line (##commandline, @PG CL) is masked; BAM is compared record by record after decompression",
 ]
 CMDS = ["phase", "phase_ped", "phase_hp_lists", "genotype", "genotype_ped", "polyphase", "haplotag", "haplotagphase",
-        "unphase", "stats", "compare", "split", "find_snv_candidates", "polyphase_pre", "polyphase_pre2", "polyphase_pre3"]
+        "unphase", "stats", "compare", "split", "find_snv_candidates", "polyphase_pre", "polyphase_pre2", "polyphase_pre3",
+        # option variants (the result must depend on files and options only, whatever the options are)
+        "split_largest", "compare_multi", "stats_gtf", "phase_distrust", "haplotag_regions", "find_snv_multi"]
 
 
 def design_mc(ctx):
@@ -180,26 +182,54 @@ def drive(sc):
             names = sc["names"]
             # inputs derived once (not judged): a phased VCF, its compressed copy, tagged BAM, haplotag list
             wd["opts"] = {}
-            if cmd in ("unphase", "stats", "compare", "haplotag", "haplotagphase", "split"):
+            if cmd in ("unphase", "stats", "compare", "haplotag", "haplotagphase", "split", "split_largest", "compare_multi",
+                       "stats_gtf", "haplotag_regions"):
                 exc, _, _ = PW.run_phase(wd, d, paths, out_name="phased.vcf")
                 assert exc == "", exc
                 shutil.copy(os.path.join(d, "phased.vcf"), os.path.join(d, "phased_copy.vcf"))
                 gz = pysam.tabix_index(os.path.join(d, "phased_copy.vcf"), preset="vcf", force=True)
-            if cmd in ("haplotagphase", "split"):
+            if cmd in ("haplotagphase", "split", "split_largest"):
                 from whatshap.cli.haplotag import run_haplotag
                 import logging
                 logging.disable(logging.ERROR)
                 run_haplotag(variant_file=gz, alignment_file=paths["bam"], output=os.path.join(d, "tagged.bam"),
                              reference=paths["ref"], haplotag_list=os.path.join(d, "list.tsv"))
                 pysam.index(os.path.join(d, "tagged.bam"))
+            if cmd == "split_largest":
+                # a list in which several phase sets of a chromosome TIE for the largest number of tagged reads
+                per = {}
+                with pysam.AlignmentFile(os.path.join(d, "tagged.bam")) as bf:
+                    for a in bf:
+                        if not a.is_unmapped and a.query_name not in per.setdefault(a.reference_name, []):
+                            per[a.reference_name].append(a.query_name)
+                seen = set()
+                with open(os.path.join(d, "list.tsv"), "w") as fh:
+                    fh.write("#readname\thaplotype\tphaseset\tchromosome\n")
+                    for ch_, nms in per.items():
+                        nms = [n_ for n_ in nms if n_ not in seen]
+                        seen.update(nms)
+                        k3 = len(nms) // 3
+                        for i, n_ in enumerate(nms):
+                            if i < 3 * k3:
+                                fh.write(f"{n_}\tH{1 + i % 2}\t{['1000', '20000', '31'][i // k3]}\t{ch_}\n")
+                            else:
+                                fh.write(f"{n_}\tnone\tnone\t{ch_}\n")
             if cmd == "haplotagphase":
                 from whatshap.cli.unphase import run_unphase
                 with open(os.path.join(d, "unphased.vcf"), "w") as fh:
                     run_unphase(os.path.join(d, "phased.vcf"), fh)
-            if cmd == "compare":
+            if cmd in ("compare", "compare_multi"):
                 wd2 = dict(wd, opts={"max_coverage": 2})
                 exc, _, _ = PW.run_phase(wd2, d, paths, out_name="phased2.vcf")
                 assert exc == "", exc
+            if cmd == "compare_multi":
+                wd3 = dict(wd, opts={"max_coverage": 1})
+                exc, _, _ = PW.run_phase(wd3, d, paths, out_name="phased3.vcf")
+                assert exc == "", exc
+            if cmd == "stats_gtf":
+                with open(os.path.join(d, "lengths.tsv"), "w") as fh:
+                    for ch_, sq_ in zip(paths["names"], paths["seqs"]):
+                        fh.write(f"{ch_}\t{len(sq_[0]) + 1000}\n")
             base, outs = {
                 "phase": (["phase", "--reference", paths["ref"], "-o", "{out}/out.vcf", paths["vcf"], paths["bam"]], ["out.vcf"]),
                 "phase_ped": (["phase", "--reference", paths["ref"], "-o", "{out}/out.vcf", "--ped", paths["ped"], "--use-ped-samples",
@@ -222,6 +252,26 @@ def drive(sc):
                 "split": (["split", "--output-h1", "{out}/h1.bam", "--output-h2", "{out}/h2.bam", "--output-untagged", "{out}/u.bam",
                            "--read-lengths-histogram", "{out}/hist.tsv", os.path.join(d, "tagged.bam"), os.path.join(d, "list.tsv")],
                           ["h1.bam", "h2.bam", "u.bam", "hist.tsv"]),
+                "split_largest": (["split", "--only-largest-block", "--discard-unknown-reads", "--output-h1", "{out}/h1.bam",
+                                   "--output-h2", "{out}/h2.bam", "--output-untagged", "{out}/u.bam",
+                                   "--read-lengths-histogram", "{out}/hist.tsv", os.path.join(d, "tagged.bam"), os.path.join(d, "list.tsv")],
+                                  ["h1.bam", "h2.bam", "u.bam", "hist.tsv"]),
+                "compare_multi": (["compare", "--tsv-multiway", "{out}/m.tsv", "--tsv-pairwise", "{out}/p.tsv", "--switch-error-bed", "{out}/sw.bed",
+                                   "--longest-block-tsv", "{out}/lb.tsv", "--names", "a,b,c", "--sample", names[0],
+                                   os.path.join(d, "phased.vcf"), os.path.join(d, "phased2.vcf"), os.path.join(d, "phased3.vcf")],
+                                  ["m.tsv", "p.tsv", "sw.bed", "lb.tsv", "stdout"]),
+                "stats_gtf": (["stats", "--gtf", "{out}/b.gtf", "--tsv", "{out}/s.tsv", "--block-list", "{out}/b.tsv", "--only-snvs",
+                               "--chr-lengths", os.path.join(d, "lengths.tsv"), os.path.join(d, "phased.vcf")],
+                              ["b.gtf", "s.tsv", "b.tsv", "stdout"]),
+                "phase_distrust": (["phase", "--reference", paths["ref"], "-o", "{out}/out.vcf", "--distrust-genotypes", "--include-homozygous",
+                                    "--changed-genotype-list", "{out}/gt.tsv", "--output-read-list", "{out}/reads.tsv",
+                                    paths["vcf"], paths["bam"]], ["out.vcf", "gt.tsv", "reads.tsv"]),
+                "haplotag_regions": (["haplotag", "--reference", paths["ref"], "-o", "{out}/out.bam", "--output-haplotag-list", "{out}/list.tsv",
+                                      "--regions", paths["names"][0] + ":1-160", "--regions", paths["names"][-1] + ":100-400",
+                                      "--tag-supplementary", "--ignore-linked-read", "--sample", names[0], "--sample", names[2],
+                                      os.path.join(d, "phased_copy.vcf.gz"), paths["bam"]], ["out.bam", "list.tsv"]),
+                "find_snv_multi": (["find_snv_candidates", paths["ref"], paths["bam"], "-o", "{out}/cand.vcf", "--multi-allelics", "--minabs", "1",
+                                    "--minrel", "0.05", "--sample", "any"], ["cand.vcf"]),
                 "find_snv_candidates": (["find_snv_candidates", paths["ref"], paths["bam"], "-o", "{out}/cand.vcf", "--minabs", "1",
                                          "--minrel", "0.1"], ["cand.vcf"]),
             }[cmd]
